@@ -36,12 +36,12 @@ def make_grid(shape, vs):
     return darsia.Grid(tuple(shape), list(vs))
 
 
-def make_image(arr, vs):
+def make_image(arr, vs, dtype=None):
     import darsia
 
     shape = arr.shape
     dim = len(shape)
-    return darsia.Image(np.asarray(arr, dtype=float).copy(), space_dim=dim, scalar=True, dimensions=[vs[a] * shape[a] for a in range(dim)])
+    return darsia.Image(np.asarray(arr, dtype=dtype or float).copy(), space_dim=dim, scalar=True, dimensions=[vs[a] * shape[a] for a in range(dim)])
 
 
 # ------------------------------------------------------------------ mass alphabets
@@ -233,7 +233,7 @@ class Run:
     pass
 
 
-def run_solver(method, shape, vs, m1, m2, o, weight=None, fault_at=None, sched=None, then=None, then_fault_at=None):
+def run_solver(method, shape, vs, m1, m2, o, weight=None, fault_at=None, sched=None, then=None, then_fault_at=None, img_dtype=None):
     """Execute the real solver once.
 
     fault_at: 1-based index of the in-loop linear_solve call (= iteration index + 1) that raises once.
@@ -246,7 +246,7 @@ def run_solver(method, shape, vs, m1, m2, o, weight=None, fault_at=None, sched=N
     import darsia.measure.wasserstein as W
 
     grid = make_grid(shape, vs)
-    img1, img2 = make_image(m1, vs), make_image(m2, vs)
+    img1, img2 = make_image(m1, vs, img_dtype), make_image(m2, vs, img_dtype)
     wimg = None if weight is None else make_image(np.full(tuple(shape), float(weight)), vs)
     opts = build_options(o)
     opts.setdefault("return_info", True)
